@@ -244,6 +244,26 @@ pub fn generate(rng: &mut Rng, p: &Pools, mode: &str) -> Workload {
             threads[b].insert(pb, o2);
         }
     }
+    // two expressions that differ in spacing only, evaluated in the same execution (same kind of operation)
+    if !c10 && rng.chance(1, 3) && !p.spacing_variants.is_empty() {
+        let (a, b) = rng.pick(&p.spacing_variants).clone();
+        let (a, b) = if rng.chance(1, 2) { (a, b) } else { (b, a) };
+        let t = *rng.pick(&p.instants);
+        let c = gen_ctx(rng, p, false);
+        let mk = |e: String, k: u64, c: &Ctx| match k {
+            0 => Op::Parse(e),
+            1 => Op::Iter { e, c: c.clone(), t, n: 12 },
+            2 => Op::Normalize(e),
+            _ => Op::StateNext { e, c: c.clone(), t },
+        };
+        let k = rng.below(4);
+        let ta = rng.usize_below(n_threads);
+        let tb = if rng.chance(1, 2) { ta } else { rng.usize_below(n_threads) };
+        let pa = rng.usize_below(threads[ta].len() + 1);
+        threads[ta].insert(pa, mk(a, k, &c));
+        let pb = rng.usize_below(threads[tb].len() + 1);
+        threads[tb].insert(pb, mk(b, if rng.chance(2, 3) { k } else { rng.below(4) }, &c));
+    }
     // iterator hand-offs between threads (always from a lower to a higher thread index: no wait cycles)
     if !c10 {
         let n_hand = rng.below(3) as u32;
